@@ -1,11 +1,14 @@
 //! Configuration catalogue: which drivers run for which property, with which bounds.
 use crate::drivers::c01::{self, Mode};
 use crate::drivers::c02::{self, Kind};
+use crate::drivers::c03::{self, LcMut};
+use crate::drivers::c04::{self, Attack};
 use crate::drivers::c05::{self, ListMut};
 use crate::drivers::c06::{self, LcShape, Pert, T};
 use crate::drivers::c07;
 use crate::drivers::c08;
 use crate::drivers::c09::{self, TrimReq};
+use crate::drivers::c11::{self, Op};
 use crate::drivers::c14;
 use crate::drivers::c16;
 use crate::drivers::inherent::{self, Pert as IPert};
@@ -179,6 +182,109 @@ fn c02_family<S: Sch>(t: Tier, seed: u64, out: &mut Vec<Entry>) {
     }
 }
 
+fn c04_family<S: Sch<P = UP>>(t: Tier, seed: u64, out: &mut Vec<Entry>)
+where
+    crate::drivers::common::CommOf<S>: c04::ShiftParts,
+{
+    let name = S::NAME;
+    let quick = t == Tier::Quick;
+    let f = vec!["kzg10::KZG10::check_degrees_and_bounds", "InnerProductArgPC::check_degrees_and_bounds", "MarlinKZG10/SonicKZG10/InnerProductArgPC::{trim,commit,open,check}", "Marlin::accumulate_commitments_and_values", "SonicKZG10::{accumulate_elems,check_elems}", "VerifierKey::get_shift_power"];
+    let (maxd, sup) = if quick { (5, 3) } else { (7, 5) };
+    let mk = |polys: Vec<PolySpec>, enforced: Option<Vec<usize>>| -> Cfg {
+        let mut c = Cfg::new(Size::uni(maxd, sup, 1), polys);
+        c.seed = seed;
+        c.enforced = enforced;
+        c
+    };
+    let mut add = |id: &str, cfg: Cfg, run: Box<dyn Fn(&Cfg) -> Verdict>, twin: bool| {
+        let b = format!("{:?}; polys {:?}; enforced {:?}", cfg.sz, cfg.polys, cfg.enforced);
+        let c2 = cfg.clone();
+        let mut en = e(format!("{}/{}", name, id), t, "polynomial coefficients (the degree is value-dependent), point, challenges", b, move || run(&c2));
+        en.funcs = f.clone();
+        en.twin = twin;
+        if quick { en.lim.wall_s = 45.0; }
+        out.push(en);
+    };
+    // admission: degree exactly around the bound (len = d+2 coefficients: degree d+1 unless the top one vanishes)
+    for d in [1usize, sup - 1] {
+        add(&format!("admit-deg-vs-bound-d{}", d), mk(vec![PolySpec::new(d + 2).bound(d)], Some(vec![d, sup])), Box::new(|c| c04::admission::<S>(c, true)), false);
+        add(&format!("admit-deg-vs-bound-d{}-hiding", d), mk(vec![PolySpec::new(d + 2).bound(d).hide(1)], Some(vec![sup, d, d])), Box::new(|c| c04::admission::<S>(c, true)), false);
+    }
+    if name != "ipa" {
+        // IPA enforces no list of bounds: any d <= supported is admissible there
+        add("admit-bound-not-enforced", mk(vec![PolySpec::new(2).bound(2)], Some(vec![1, 3])), Box::new(|c| c04::admission::<S>(c, false)), false);
+        add("admit-no-bounds-enforced", mk(vec![PolySpec::new(2).bound(2)], Some(vec![])), Box::new(|c| c04::admission::<S>(c, false)), false);
+    }
+    add("admit-bound-above-supported", mk(vec![PolySpec::new(2).bound(sup + 1)], Some(vec![sup])), Box::new(|c| c04::admission::<S>(c, false)), false);
+    add("admit-bound-eq-supported", mk(vec![PolySpec::new(sup + 2).bound(sup)], Some(vec![sup])), Box::new(|c| c04::admission::<S>(c, true)), false);
+    if name != "ipa" {
+        // verifier side (IPA's challenges hash the shifted value: decided through C10)
+        let (d1, d2) = (sup - 1, sup);
+        add("relabel-up", mk(vec![PolySpec::new(2).bound(d1)], Some(vec![d1, d2])), Box::new(move |c| c04::verifier_side::<S>(c, Attack::Relabel(d2), false)), false);
+        add("relabel-down", mk(vec![PolySpec::new(2).bound(d2)], Some(vec![d1, d2])), Box::new(move |c| c04::verifier_side::<S>(c, Attack::Relabel(d1), false)), false);
+        add("relabel-up-hiding", mk(vec![PolySpec::new(2).bound(d1).hide(1)], Some(vec![d1, d2])), Box::new(move |c| c04::verifier_side::<S>(c, Attack::Relabel(d2), false)), false);
+        add("label-drop", mk(vec![PolySpec::new(2).bound(d1)], Some(vec![d1, d2])), Box::new(move |c| c04::verifier_side::<S>(c, Attack::LabelDrop, false)), false);
+        add("twin-relabel", mk(vec![PolySpec::new(2).bound(d1)], Some(vec![d1, d2])), Box::new(move |c| c04::verifier_side::<S>(c, Attack::Relabel(d2), true)), true);
+        if name == "marlin" {
+            add("shift-drop", mk(vec![PolySpec::new(2).bound(d1)], Some(vec![d1, d2])), Box::new(move |c| c04::verifier_side::<S>(c, Attack::ShiftDrop, false)), false);
+            add("shift-swap", mk(vec![PolySpec::new(2).bound(d1), PolySpec::new(2).conc().bound(d1)], Some(vec![d1, d2])), Box::new(move |c| c04::verifier_side::<S>(c, Attack::ShiftSwap, false)), false);
+        }
+    }
+}
+
+fn c11_family<S: Sch>(t: Tier, seed: u64, out: &mut Vec<Entry>) {
+    let name = S::NAME;
+    let quick = t == Tier::Quick;
+    let f = vec!["PolynomialCommitment::{open,check,batch_open,batch_check,open_combinations,check_combinations}", "CryptographicSponge::{absorb,squeeze_*} call schedule of every scheme"];
+    let sym = "sponge pre-state, all challenges, points, blinding; one polynomial symbolic in 1-polynomial histories";
+    let mk = |polys: Vec<PolySpec>, npoints: usize, queries: Vec<(usize, usize)>| -> Cfg {
+        let mut c = Cfg::new(std_size::<S>(t, 0), polys);
+        c.seed = seed;
+        c.npoints = npoints;
+        c.queries = queries;
+        c.rng_nonzero = true;
+        c
+    };
+    let conc = |n: usize| -> Vec<PolySpec> { (0..n).map(|_| PolySpec::new(2).conc()).collect() };
+    let mut add = |id: &str, cfg: Cfg, run: Box<dyn Fn(&Cfg) -> Verdict>, twin: bool| {
+        let b = format!("{:?}; polys {:?}; points {}; queries {:?}", cfg.sz, cfg.polys, cfg.npoints, cfg.queries);
+        let c2 = cfg.clone();
+        let mut en = e(format!("{}/{}", name, id), t, sym, b, move || run(&c2));
+        en.funcs = f.clone();
+        en.twin = twin;
+        if quick { en.lim.wall_s = 45.0; }
+        out.push(en);
+    };
+    let two = vec![(0, 0), (1, 0), (1, 1)];
+    add("hist-o", mk(vec![PolySpec::new(2)], 1, vec![(0, 0)]), Box::new(|c| c11::lockstep::<S>(c, &[Op::Open(0)])), false);
+    add("hist-oo", mk(conc(2), 2, two.clone()), Box::new(|c| c11::lockstep::<S>(c, &[Op::Open(0), Op::Open(1)])), false);
+    add("hist-ob", mk(conc(2), 2, two.clone()), Box::new(|c| c11::lockstep::<S>(c, &[Op::Open(1), Op::Batch])), false);
+    add("hist-bo", mk(conc(2), 2, two.clone()), Box::new(|c| c11::lockstep::<S>(c, &[Op::Batch, Op::Open(0)])), false);
+    add("hist-oc", mk(conc(2), 2, two.clone()), Box::new(|c| c11::lockstep::<S>(c, &[Op::Open(0), Op::Comb])), false);
+    add("hist-obc", mk(conc(2), 2, two.clone()), Box::new(|c| c11::lockstep::<S>(c, &[Op::Open(0), Op::Batch, Op::Comb])), false);
+    if !quick {
+        add("hist-cbo", mk(conc(2), 2, two.clone()), Box::new(|c| c11::lockstep::<S>(c, &[Op::Comb, Op::Batch, Op::Open(1)])), false);
+        add("hist-oo-sym", mk(vec![PolySpec::new(2), PolySpec::new(2)], 2, two.clone()), Box::new(|c| c11::lockstep::<S>(c, &[Op::Open(0), Op::Open(1)])), false);
+    }
+    if S::HIDING && name != "hyrax" {
+        let mut c = mk(vec![PolySpec::new(2).conc().hide(1), PolySpec::new(2).conc().hide(1)], 2, two.clone());
+        c.sz = std_size::<S>(t, 1);
+        add("hist-ob-hiding", c, Box::new(|c| c11::lockstep::<S>(c, &[Op::Open(1), Op::Batch])), false);
+    }
+    if S::BOUNDS {
+        let sup = std_size::<S>(t, 0).supported;
+        add("hist-ob-bounds", mk(vec![PolySpec::new(2).conc().bound(sup - 1), PolySpec::new(2).conc()], 2, two.clone()), Box::new(|c| c11::lockstep::<S>(c, &[Op::Open(1), Op::Batch])), false);
+    }
+    if name != "hyrax" {
+        // rejection under another transcript (concrete non-constant polynomials; Hyrax accepts any claim, see C02)
+        let mut c = mk(conc(1), 1, vec![(0, 0)]);
+        c.sym_ch = false;
+        add("prestate-differs", c.clone(), Box::new(|c| c11::prestate::<S>(c, false)), false);
+        add("twin-prestate", c, Box::new(|c| c11::prestate::<S>(c, true)), true);
+        add("proofs-transposed", mk(conc(2), 2, vec![(0, 0), (1, 1)]), Box::new(|c| c11::swapped::<S>(c)), false);
+    }
+}
+
 fn c05_family<S: Sch>(t: Tier, seed: u64, out: &mut Vec<Entry>) {
     let name = S::NAME;
     let quick = t == Tier::Quick;
@@ -273,16 +379,28 @@ fn c06_family<S: Sch>(t: Tier, seed: u64, out: &mut Vec<Entry>) {
 
 pub fn catalogue(prop: &str, t: Tier, seed: u64) -> Vec<Entry> {
     let mut out = vec![];
+    let deep = matches!(prop, "C02" | "C03" | "C04" | "C05" | "C06" | "C10" | "C11");
+    catalogue_inner(prop, t, seed, &mut out);
+    if deep {
+        for en in out.iter_mut() {
+            en.lim.deep_first = true;
+        }
+    }
+    out
+}
+
+fn catalogue_inner(prop: &str, t: Tier, seed: u64, out: &mut Vec<Entry>) {
+    let mut out = out;
     match prop {
         "C01" => {
-            c01_family::<Marlin>(t, seed, &mut out);
-            c01_family::<Sonic>(t, seed, &mut out);
-            c01_family::<Ipa>(t, seed, &mut out);
-            c01_family::<Pst13>(t, seed, &mut out);
-            c01_family::<Hyrax>(t, seed, &mut out);
-            c01_family::<LigeroUni>(t, seed, &mut out);
-            c01_family::<LigeroMl>(t, seed, &mut out);
-            c01_family::<Brakedown>(t, seed, &mut out);
+            c01_family::<Marlin>(t, seed, out);
+            c01_family::<Sonic>(t, seed, out);
+            c01_family::<Ipa>(t, seed, out);
+            c01_family::<Pst13>(t, seed, out);
+            c01_family::<Hyrax>(t, seed, out);
+            c01_family::<LigeroUni>(t, seed, out);
+            c01_family::<LigeroMl>(t, seed, out);
+            c01_family::<Brakedown>(t, seed, out);
             let fi = vec!["kzg10::KZG10::{setup,commit,open,check,batch_check}", "MultilinearPC::{setup,trim,commit,open,check}"];
             for (id, len, hid, batch) in [("kzg10/1p", 3usize, None, false), ("kzg10/1p-hide1", 2, Some(1usize), false), ("kzg10/2p-batch", 2, None, true)] {
                 let mut en = e(id.to_string(), t, "coefficients, points, blinding", format!("max_degree 3, {} coefficients, hiding {:?}", len, hid), move || inherent::kzg10(3, len, hid, IPert::None, batch, seed)); en.funcs = fi.clone(); if t == Tier::Quick { en.lim.wall_s = 45.0; } out.push(en);
@@ -292,13 +410,13 @@ pub fn catalogue(prop: &str, t: Tier, seed: u64) -> Vec<Entry> {
             }
         }
         "C02" => {
-            c02_family::<Marlin>(t, seed, &mut out);
-            c02_family::<Sonic>(t, seed, &mut out);
-            c02_family::<Pst13>(t, seed, &mut out);
-            c02_family::<Hyrax>(t, seed, &mut out);
-            c02_family::<LigeroUni>(t, seed, &mut out);
-            c02_family::<LigeroMl>(t, seed, &mut out);
-            c02_family::<Brakedown>(t, seed, &mut out);
+            c02_family::<Marlin>(t, seed, out);
+            c02_family::<Sonic>(t, seed, out);
+            c02_family::<Pst13>(t, seed, out);
+            c02_family::<Hyrax>(t, seed, out);
+            c02_family::<LigeroUni>(t, seed, out);
+            c02_family::<LigeroMl>(t, seed, out);
+            c02_family::<Brakedown>(t, seed, out);
             let fi = vec!["kzg10::KZG10::{setup,commit,open,check,batch_check}", "MultilinearPC::{setup,trim,commit,open,check}"];
             for (id, len, hid, batch, pert) in [("kzg10/1p-val", 3usize, None, false, IPert::Value), ("kzg10/1p-point", 3, None, false, IPert::Point), ("kzg10/1p-hide1-val", 2, Some(1usize), false, IPert::Value), ("kzg10/2p-batch-val", 2, None, true, IPert::Value), ("kzg10/twin", 2, None, false, IPert::Twin)] {
                 let mut en = e(id.to_string(), t, "coefficients, points, blinding, delta", format!("max_degree 3, {} coefficients, hiding {:?}", len, hid), move || inherent::kzg10(3, len, hid, pert, batch, seed)); en.funcs = fi.clone(); en.twin = pert == IPert::Twin; if t == Tier::Quick { en.lim.wall_s = 45.0; } out.push(en);
@@ -329,25 +447,90 @@ pub fn catalogue(prop: &str, t: Tier, seed: u64) -> Vec<Entry> {
                 out.push(en);
             }
         }
+        "C03" => {
+            let f = vec!["PolynomialCommitment::{commit,open,check}", "LinearCodePCS::check", "Path::verify", "get_indices_from_sponge", "calculate_t", "MarlinPST13::check", "HyraxPC::check", "kzg10::KZG10::check"];
+            let quick = t == Tier::Quick;
+            let symtxt = "polynomial(s), point(s), challenges, delta, every replaced proof component";
+            macro_rules! fam {
+                ($S:ty, $pts:expr) => {{
+                    let name = <$S as Sch>::NAME;
+                    let len = if <$S as Sch>::UNIVARIATE { 3 } else { 3 };
+                    let mut c = Cfg::new(std_size::<$S>(t, 0), vec![PolySpec::new(len)]);
+                    c.seed = seed;
+                    let c2 = c.clone();
+                    let mut en = e(format!("{}/foreign-q", name), t, symtxt, format!("{:?}", c.sz), move || c03::foreign_q::<$S>(&c2)); en.funcs = f.clone(); if quick { en.lim.wall_s = 45.0; } out.push(en);
+                    if $pts {
+                        let c2 = c.clone();
+                        let mut en = e(format!("{}/foreign-z", name), t, symtxt, format!("{:?}", c.sz), move || c03::foreign_z::<$S>(&c2)); en.funcs = f.clone(); if quick { en.lim.wall_s = 45.0; } out.push(en);
+                    }
+                }};
+            }
+            fam!(Marlin, true);
+            fam!(Sonic, true);
+            fam!(Pst13, true);
+            fam!(LigeroUni, true);
+            fam!(LigeroMl, true);
+            fam!(Brakedown, true);
+            macro_rules! lin {
+                ($S:ty, $len:expr) => {{
+                    let name = <$S as Sch>::NAME;
+                    for (id, m) in [("cols+v-symbolic", LcMut::ColsSymbolic), ("cols-symbolic", LcMut::ColsOnlySymbolic), ("v-stretch", LcMut::VStretch), ("wf-absent", LcMut::WfAbsent), ("wf+v-symbolic", LcMut::WfSymbolic), ("cols-dup", LcMut::ColsDup), ("path-otherleaf", LcMut::PathOtherLeaf)] {
+                        let mut c = Cfg::new(std_size::<$S>(t, 0), vec![PolySpec::new($len).conc()]);
+                        c.seed = seed;
+                        c.sym_points = false;
+                        // transcript challenges take their natural (hash-of-concrete-transcript) values: the
+                        // verifier's equations are then linear in the forged components
+                        c.sym_ch = false;
+                        let c2 = c.clone();
+                        let mut en = e(format!("{}/{}", name, id), t, symtxt, format!("{:?}; concrete-random polynomial and point, symbolic replaced components", c.sz), move || c03::lincode::<$S>(&c2, m, false)); en.funcs = f.clone(); if quick { en.lim.wall_s = 60.0; } out.push(en);
+                    }
+                    let mut c = Cfg::new(std_size::<$S>(t, 0), vec![PolySpec::new($len).conc()]);
+                    c.seed = seed;
+                    c.sym_points = false;
+                    let c2 = c.clone();
+                    let mut en = e(format!("{}/twin", name), t, symtxt, "twin".into(), move || c03::lincode::<$S>(&c2, LcMut::WfAbsent, true)); en.funcs = f.clone(); en.twin = true; out.push(en);
+                }};
+            }
+            lin!(LigeroUni, 4);
+            lin!(LigeroMl, 1);
+            lin!(Brakedown, 1);
+            for (id, drop) in [("pst13/w-short", true), ("pst13/w-long", false)] {
+                let mut c = Cfg::new(Size::mv(2, 2, 0), vec![PolySpec::new(3)]);
+                c.seed = seed;
+                let c2 = c.clone();
+                let mut en = e(id.to_string(), t, symtxt, format!("{:?}", c.sz), move || c03::pst13_wlist(&c2, drop)); en.funcs = f.clone(); if quick { en.lim.wall_s = 45.0; } out.push(en);
+            }
+            {
+                let mut c = Cfg::new(Size::mv(2, 1, 0), vec![PolySpec::new(1), PolySpec::new(1)]);
+                c.seed = seed;
+                let c2 = c.clone();
+                let mut en = e("hyrax/plist-short".into(), t, symtxt, format!("{:?}", c.sz), move || c03::hyrax_plist_short(&c2)); en.funcs = f.clone(); out.push(en);
+            }
+        }
+        "C04" => {
+            c04_family::<Marlin>(t, seed, out);
+            c04_family::<Sonic>(t, seed, out);
+            c04_family::<Ipa>(t, seed, out);
+        }
         "C05" => {
-            c05_family::<Marlin>(t, seed, &mut out);
-            c05_family::<Sonic>(t, seed, &mut out);
-            c05_family::<Ipa>(t, seed, &mut out);
-            c05_family::<Pst13>(t, seed, &mut out);
-            c05_family::<LigeroUni>(t, seed, &mut out);
-            c05_family::<LigeroMl>(t, seed, &mut out);
-            c05_family::<Brakedown>(t, seed, &mut out);
-            c05_family::<Hyrax>(t, seed, &mut out);
+            c05_family::<Marlin>(t, seed, out);
+            c05_family::<Sonic>(t, seed, out);
+            c05_family::<Ipa>(t, seed, out);
+            c05_family::<Pst13>(t, seed, out);
+            c05_family::<LigeroUni>(t, seed, out);
+            c05_family::<LigeroMl>(t, seed, out);
+            c05_family::<Brakedown>(t, seed, out);
+            c05_family::<Hyrax>(t, seed, out);
         }
         "C06" => {
-            c06_family::<Marlin>(t, seed, &mut out);
-            c06_family::<Sonic>(t, seed, &mut out);
-            c06_family::<Ipa>(t, seed, &mut out);
-            c06_family::<Pst13>(t, seed, &mut out);
-            c06_family::<Hyrax>(t, seed, &mut out);
-            c06_family::<LigeroUni>(t, seed, &mut out);
-            c06_family::<LigeroMl>(t, seed, &mut out);
-            c06_family::<Brakedown>(t, seed, &mut out);
+            c06_family::<Marlin>(t, seed, out);
+            c06_family::<Sonic>(t, seed, out);
+            c06_family::<Ipa>(t, seed, out);
+            c06_family::<Pst13>(t, seed, out);
+            c06_family::<Hyrax>(t, seed, out);
+            c06_family::<LigeroUni>(t, seed, out);
+            c06_family::<LigeroMl>(t, seed, out);
+            c06_family::<Brakedown>(t, seed, out);
         }
         "C07" => {
             let f = vec!["kzg10::KZG10::{commit,open_with_witness_polynomial}", "kzg10::Randomness::rand", "MarlinKZG10/SonicKZG10/InnerProductArgPC/MarlinPST13/HyraxPC::{commit,open}", "OptionalRng"];
@@ -488,6 +671,16 @@ pub fn catalogue(prop: &str, t: Tier, seed: u64) -> Vec<Entry> {
             let mut en = e("transparent/ipa-hyrax".into(), t, "nothing (input-free computations: executed and asserted, not solver-decided)", "IPA max_degree 1,3,6; Hyrax 2,4 variables".into(), move || c09::transparent(seed)); en.funcs = f.clone(); out.push(en);
             let mut en = e("prepared/doublings".into(), t, "the SRS (symbolic)", "first 12 and last 4 of 255 doublings".into(), move || c09::prepared(seed)); en.funcs = f.clone(); out.push(en);
         }
+        "C11" => {
+            c11_family::<Marlin>(t, seed, out);
+            c11_family::<Sonic>(t, seed, out);
+            c11_family::<Ipa>(t, seed, out);
+            c11_family::<Pst13>(t, seed, out);
+            c11_family::<Hyrax>(t, seed, out);
+            c11_family::<LigeroUni>(t, seed, out);
+            c11_family::<LigeroMl>(t, seed, out);
+            c11_family::<Brakedown>(t, seed, out);
+        }
         "C14" => {
             let f = vec!["streaming_kzg::CommitterKey::{new,commit,batch_commit,open,open_multi_points,batch_open_multi_points}", "CommitterKeyStream::{commit,open,open_multi_points,commit_folding}", "VerifierKey::{verify,verify_multi_points}", "FoldedPolynomialTree/Stream iterators"];
             let quick = t == Tier::Quick;
@@ -522,5 +715,5 @@ pub fn catalogue(prop: &str, t: Tier, seed: u64) -> Vec<Entry> {
         }
         _ => {}
     }
-    out
+    let _ = &mut out;
 }
